@@ -704,11 +704,15 @@ pub struct TRig {
     pub dev: FuseDev,
     pub virt: Virtio,
     pub ctx: Ctx,
+    /// C17: state of the dirty bitmap before the writer sequence starts (the bitmap is not cleared between replies
+    /// in production): 0 clean, 1 every page with an even number dirty, 2 the first and the last page of every
+    /// writable descriptor dirty
+    pub predirty: u8,
 }
 
 impl TRig {
     pub fn new(page: usize) -> TRig {
-        TRig { dev: FuseDev::new(), virt: Virtio::new(page, 1 << 16, 1 << 16), ctx: Ctx::new() }
+        TRig { dev: FuseDev::new(), virt: Virtio::new(page, 1 << 16, 1 << 16), ctx: Ctx::new(), predirty: 0 }
     }
 }
 
@@ -873,6 +877,32 @@ pub fn run_writer_seq(rig: &mut TRig, shape: &Shape, seq: &[(usize, WOp)]) -> Ou
                 virt.fill_bg(lo, len);
                 virt.reset_dirty(lo, len);
             }
+            // pages that are dirty before the sequence starts (left by earlier replies)
+            let mut pre: std::collections::BTreeSet<u64> = Default::default();
+            match rig.predirty {
+                1 => {
+                    for s in &segs {
+                        let (lo, len) = span(s);
+                        let mut a = lo;
+                        while a < lo + len as u64 {
+                            if (a / page) % 2 == 0 {
+                                pre.insert(a / page);
+                            }
+                            a += page;
+                        }
+                    }
+                }
+                2 => {
+                    for s in segs.iter().filter(|s| s.len > 0) {
+                        pre.insert(s.addr / page);
+                        pre.insert((s.addr + s.len as u64 - 1) / page);
+                    }
+                }
+                _ => {}
+            }
+            for pg in &pre {
+                virt.set_dirty(pg * page);
+            }
             let q = virt.queue();
             let descs = Virtio::descs(&[], &segs);
             let res = subject(|| -> Result<Option<usize>, String> {
@@ -957,15 +987,18 @@ pub fn run_writer_seq(rig: &mut TRig, shape: &Shape, seq: &[(usize, WOp)]) -> Ou
                 }
                 for pg in &must {
                     if !virt.is_dirty(pg * page) {
-                        c17.get_or_insert(format!("page {:#x} (size {}) holds bytes written by the server but is not marked dirty", pg * page, page));
+                        c17.get_or_insert(format!("page {:#x} (size {}) holds bytes written by the server but is not marked dirty{}", pg * page, page, if rig.predirty != 0 { " (other pages were dirty before the sequence)" } else { "" }));
                     }
                 }
                 for s in &segs {
                     let (lo, len) = span(s);
                     let mut a = lo;
                     while a < lo + len as u64 {
-                        if virt.is_dirty(a) && !must.contains(&(a / page)) {
+                        if virt.is_dirty(a) && !must.contains(&(a / page)) && !pre.contains(&(a / page)) {
                             c17.get_or_insert(format!("page {:#x} (size {}) marked dirty although the server wrote nothing there", a, page));
+                        }
+                        if !virt.is_dirty(a) && pre.contains(&(a / page)) {
+                            c17.get_or_insert(format!("page {:#x} (size {}) was dirty before the sequence and is clean after it", a, page));
                         }
                         a += page;
                     }
@@ -1006,7 +1039,8 @@ impl<'a> Explore<'a> {
         let viol = if self.which == "C04" { &out.c04 } else { &out.c17 };
         let o = format!("{}:{}:{}", kind, last_op, if viol.is_some() { "VIOLATION" } else { "ok" });
         self.rep.outcome(&o);
-        self.rep.state_of(&(shape.label(), &out.summary));
+        let pre = self.rig.predirty;
+        self.rep.state_of(&(shape.label(), &out.summary, pre));
         self.rep.sample(|| json!({"shape": shape.label(), "kind": kind, "sequence": seq_dbg, "final_model": out.summary}));
         if let Some(msg) = viol {
             let tr = match shape {
@@ -1015,7 +1049,8 @@ impl<'a> Explore<'a> {
             };
             let sig = format!("{}/{}/{}/{}/{}", self.which, tr, kind, last_op, classify(msg));
             let sh = shape.clone();
-            self.rep.violation(&sig, msg, || json!({"engine": "transport", "shape": format!("{:?}", sh), "kind": kind, "sequence": seq_dbg}));
+            let pre_name = ["clean", "even pages dirty", "first and last page of each descriptor dirty"][pre as usize];
+            self.rep.violation(&sig, msg, || json!({"engine": "transport", "shape": format!("{:?}", sh), "kind": kind, "sequence": seq_dbg, "bitmap_before": pre_name}));
         }
     }
 
@@ -1109,15 +1144,20 @@ pub fn run(args: &Args, which: &str) -> Report {
                     }
                 }
             }
-            for op in &wops {
-                if ex.rep.mine(idx) {
-                    ex.writers(sh, (0, *op), &wops);
-                }
-                idx += 1;
-                if ex.rep.over_budget() {
-                    break;
+            let pres: &[u8] = if which == "C17" && (pi == 0 || thorough) { &[0, 1, 2] } else { &[0] };
+            for pre in pres {
+                ex.rig.predirty = *pre;
+                for op in &wops {
+                    if ex.rep.mine(idx) {
+                        ex.writers(sh, (0, *op), &wops);
+                    }
+                    idx += 1;
+                    if ex.rep.over_budget() {
+                        break;
+                    }
                 }
             }
+            ex.rig.predirty = 0;
         }
     }
     if which == "C04" {
